@@ -18,7 +18,11 @@ static void run_one(case_t const& c)
     std::string kind = c.gets("kind", "counting");
     auto* sem = new pika::counting_semaphore<>(c.geti("init", 0));
     auto* bsem = new pika::binary_semaphore<>(c.geti("init", 0));
-    auto* ssem = new pika::sliding_semaphore(c.geti("maxdiff", 1), c.geti("lower", 0));
+    // viaset=1: the configuration of the case is established through set_max_difference(max_difference, lower_limit) on
+    // an object constructed with other values (before any thread starts), not through the constructor
+    auto* ssem = c.geti("viaset", 0) != 0 ? new pika::sliding_semaphore(c.geti("maxdiff", 1) + 7, c.geti("lower", 0) - 3) :
+                                            new pika::sliding_semaphore(c.geti("maxdiff", 1), c.geti("lower", 0));
+    if (c.geti("viaset", 0) != 0) ssem->set_max_difference(c.geti("maxdiff", 1), c.geti("lower", 0));
     void* o = kind == "sliding" ? (void*) ssem : kind == "binary" ? (void*) bsem : (void*) sem;
     ctl->name_obj(o);
     std::vector<std::function<void()>> bodies;
